@@ -25,7 +25,7 @@ RULE = ("base runs of C06 with objective f1 + w*f2 (8 iterations); update functi
         "identity => result, callback states and evaluation log bitwise equal to the run "
         "without update function; rewrite => every later pair is a bitwise difference of "
         "retained points and of the rewritten/later gradients (provenance search), has "
-        "s.y > eps*y.y, the newest stored point is retained, <= maxcor pairs, and the next "
+        "s.y > eps*y.y, the newest stored point is retained, and the next "
         "iterate equals (1e-8) the restart on the new objective from the callback state "
         "taken right after the rewrite; non-trivial = rewrite applied with >= 1 stored "
         "pair; distinct = distinct case")
@@ -54,9 +54,20 @@ def cases(tier, variants):
         for ftol in (0.0, 1e-5, 1e-2):
             for tgt in (None, "reach"):
                 yield dict(b, part="ident", ftol=ftol, tgt=tgt)
+        # the same with a gradient scaler in use (the target is then tested on f/s)
+        yield dict(b, part="ident", ftol=0.0, tgt="reach", scaler=0.37)
+        yield dict(b, part="ident", ftol=1e-5, tgt="reach", scaler=8.0)
         for k in range(0, K):
             for rw in REWRITES:
                 yield dict(b, part="rw", k=k, rw=rw)
+        # letter: a stop criterion (target placed between the objective values of
+        # iterations k-1 and k) fires at the very iteration of the rewrite
+        for k in range(2, K):
+            yield dict(b, part="rw", k=k, rw="scale5", stop=True)
+            if b["maxcor"] <= 3:
+                npts = min(b["maxcor"] + 1, k + 1)
+                for mask in range(1, 2 ** npts):
+                    yield dict(b, part="flip" if mask % 3 else "anti", k=k, mask=mask, stop=True)
         if b["maxcor"] <= 3:
             for k in range(1, K):
                 npts = min(b["maxcor"] + 1, k + 1) if k > 0 else 1
@@ -120,6 +131,8 @@ def run(case):
                             callback=lambda x, s: vals.append(float(s.fun)) and False, **kw)
             if len(vals) >= 4:
                 tgt = 0.5 * (vals[2] + vals[3])
+        if case.get("scaler"):
+            kw = dict(kw, gradient_scaler=(lambda *a_, _s=case["scaler"]: _s))
         o1 = F.Obs(fun, jac, p.lb, p.ub)
         s1 = []
         a = minimize_lbfgsb(x0=p.x0.copy(), fun=o1.fun, jac=o1.jac, ftol=case["ftol"],
@@ -194,14 +207,42 @@ def run(case):
             return newf, newf_old, newg, G
         return newf, newf_old, newg, deque(Gl)
     states = []
+    tgt = None
+    if case.get("stop"):
+        vals = []
+        minimize_lbfgsb(x0=p.x0.copy(), fun=fun, jac=jac, ftol=-10.0,
+                        callback=lambda x, s_: vals.append(float(s_.fun)) and False, **kw)
+        if len(vals) <= k or not vals[k - 1] - vals[k - 2] < 0:
+            return dict(viol=[], outcome="no_target_slot", stats={"skipped": 1})
+        tgt = 0.5 * (vals[k - 1] + vals[k - 2])
+        if case.get("rw") == "scale5":
+            tgt = None if vals[k - 1] <= 0 else 5.0 * tgt
+            if tgt is None:
+                return dict(viol=[], outcome="no_target_slot", stats={"skipped": 1})
     try:
         res = minimize_lbfgsb(x0=p.x0.copy(), fun=fun, jac=jac_logged, ftol=-10.0,
-                              update_fun_def=upd,
+                              ftarget=tgt, update_fun_def=upd,
                               callback=lambda x, s: states.append(copy.deepcopy(s)) and False, **kw)
     except core.CaseTimeout:
         raise
     except Exception as e:
         return dict(viol=[V("exception_after_rewrite", exc=repr(e))], outcome="exception")
+    if case.get("stop"):
+        if "X" not in rec:
+            return dict(viol=[], outcome="rewrite_not_reached", stats={"skipped": 1})
+        pts = rec["X"] + [rec["x"]]
+        grs = rec["G"] + [rec["grad"]]
+        sk, yk = res.hess_inv.sk, res.hess_inv.yk
+        for a, b_ in zip(sk, yk):
+            if sk.size and not float(a @ b_) > EPS * float(b_ @ b_):
+                viol.append(V("result_pair_without_curvature_when_stopping_at_the_rewrite",
+                              sy=float(a @ b_), message=str(res.message)))
+                break
+        if sk.size and chain_ok(pts, grs, sk, yk) is None:
+            viol.append(V("result_pair_not_difference_of_rewritten_gradients_when_stopping",
+                          message=str(res.message)))
+        return dict(viol=viol, outcome=f"stop|{res.message}",
+                    nontrivial=core.case_hash(case) if "TARGET" in str(res.message) else None)
     if "X" not in rec or len(states) < max(k, 1):
         return dict(viol=[], outcome="rewrite_not_reached", stats={"skipped": 1})
     # points/gradients that may legitimately appear in pairs from now on: the stored ones
@@ -215,8 +256,6 @@ def run(case):
         grs.append(glog.get(np.asarray(s.x, float).tobytes(), np.asarray(s.jac)))
     for si, s in enumerate(states[first:] + [res]):
         sk, yk = s.hess_inv.sk, s.hess_inv.yk
-        if sk.shape[0] > case["maxcor"]:
-            viol.append(V("too_many_pairs", state=first + si, n=int(sk.shape[0])))
         for a, b in zip(sk, yk):
             if not float(a @ b) > EPS * float(b @ b):
                 viol.append(V("pair_without_curvature_after_rewrite", state=first + si,
